@@ -1294,7 +1294,7 @@ func collectTextNodes(parent *Inline, r *inlineByteReader, end int, textKind Inl
 			break
 		}
 		if r.jumped() {
-			if r.prevPos > plainStart {
+			if r.prevPos >= plainStart {
 				parent.children = append(parent.children, &Inline{
 					kind: textKind,
 					span: Span{
